@@ -191,6 +191,8 @@ type leaf struct {
 type structKey struct {
 	Key   string // full key of a nested struct field
 	Depth int
+	Name  string // Go field name
+	Top   bool   // a field of the top-level struct itself
 }
 
 type shape struct {
@@ -247,7 +249,7 @@ func walkShape(sh *shape, fs []fieldNode, tag int, pre string, nested bool, dept
 			if !ok {
 				continue
 			}
-			sh.Structs = append(sh.Structs, structKey{pre + p, depth + 1})
+			sh.Structs = append(sh.Structs, structKey{pre + p, depth + 1, f.Name, depth == 0 && embed == 0})
 			walkShape(sh, sub, tag, pre+p+".", true, depth+1, embed, sel+"."+f.Name)
 			continue
 		}
@@ -435,6 +437,8 @@ type caseT struct {
 	CallConvs     []int     `json:",omitempty"` // entry B through a Binder: converters registered per call
 	WarmCallConvs []int     `json:",omitempty"` // the per-call converters of the earlier request
 	HasWarmCall   bool      `json:",omitempty"`
+	NJKey         string    `json:",omitempty"` // a nested struct field given as one JSON value under this key …
+	NJName        string    `json:",omitempty"` // … the Go name of that field
 	EvB           int       `json:",omitempty"` // event hooks registered with the options of the call / of the Binder (bit 0 FieldBound, 1 UnknownField, 2 Done)
 	HasEvC        bool      `json:",omitempty"` // entry B through a Binder: a per-call WithEvents …
 	EvC           int       `json:",omitempty"` // … with these hooks
@@ -770,6 +774,31 @@ func genCase1(r *hx.Rand) caseT {
 		return c
 	}
 	c.Src = genSrc(r, ct.Shapes[c.Tag], c.Tag, c.Opts, &c.NT, r.Range(3, 9))
+	if (c.Tag == 0 || c.Tag == 2) && !c.AllErrors && c.Opts.MaxDepth < 0 && r.Chance(1, 3) {
+		// one nested struct field of the top level given as a JSON value under its own key
+		var tops []structKey
+		for _, sk := range ct.Shapes[c.Tag].Structs {
+			if sk.Top {
+				tops = append(tops, sk)
+			}
+		}
+		if len(tops) > 0 {
+			sk := hx.Pick(r, tops)
+			ft, _ := reflect.TypeOf(ct.E.New()).Elem().FieldByName(sk.Name)
+			st := ft.Type
+			if st.Kind() == reflect.Pointer {
+				st = st.Elem()
+			}
+			var keep [][2]string
+			for _, p := range c.Src {
+				if p[0] != sk.Key {
+					keep = append(keep, p)
+				}
+			}
+			c.Src = append(keep, [2]string{sk.Key, nestedJSONDoc(r, st)})
+			c.NJKey, c.NJName = sk.Key, sk.Name
+		}
+	}
 	if forceWarm || r.Chance(3, 5) {
 		c.HasWarm = true
 		var nt bool
@@ -1761,6 +1790,20 @@ func emit(id string, c caseT, st *hx.Stats) string {
 	for i := 0; i < len(strs); i++ {
 		var extra []string
 		tableEntry(tl, strs[i], &extra, eff.Layouts, ct.Opq, convIDs)
+		// the nested-struct JSON shortcut: what encoding/json makes of the value under the struct's own key
+		if c.NJKey != "" && len(srcs) == 1 && srcs[0].vals != nil && strs[i] == srcs[0].vals.Get(c.NJKey) && strs[i] != "" {
+			nd := ct.E.New()
+			if c.Entry != "G" && c.Prefill != 0 {
+				prefill(hx.NewRand(c.Prefill), reflect.ValueOf(nd).Elem())
+			}
+			if rv, ok := nestedJSONRef(nd, c.NJName, strs[i]); ok {
+				tl.Bool(true).Tok(rv)
+			} else {
+				tl.Bool(false)
+			}
+		} else {
+			tl.Bool(false)
+		}
 		n++
 		for _, e := range extra {
 			note(e)
@@ -2145,6 +2188,33 @@ func fixedCases() []caseT {
 		}
 	}
 	out = append(out, fixedBodyCases()...)
+	// a nested struct given as one JSON value under its own key: a field the JSON sets to 0 holds 0, not its default
+	func() {
+		for _, ct := range types {
+			rt := reflect.TypeOf(ct.E.New()).Elem()
+			for _, sk := range ct.Shapes[0].Structs {
+				if !sk.Top {
+					continue
+				}
+				ft, _ := rt.FieldByName(sk.Name)
+				st := ft.Type
+				if st.Kind() == reflect.Pointer {
+					st = st.Elem()
+				}
+				for i := 0; i < st.NumField(); i++ {
+					f := st.Field(i)
+					d := f.Tag.Get("default")
+					if n, err := strconv.Atoi(d); err == nil && n > 0 && n < 100 && f.IsExported() && f.Type.Kind() >= reflect.Int && f.Type.Kind() <= reflect.Uint64 && f.Tag.Get("query") != "" {
+						for _, e := range []string{"G", "T"} {
+							out = append(out, caseT{T: ct.E.Name, Tag: 0, Entry: e, Opts: optsT{-1, -1, -1, false, false, nil}, NT: true,
+								Src: [][2]string{{sk.Key, `{"` + f.Name + `":0}`}}, NJKey: sk.Key, NJName: sk.Name})
+						}
+						return
+					}
+				}
+			}
+		}
+	}()
 	// file fields at the top level and inside nested structs, bound from sources that carry no files
 	for i, ct := range uploadTypes {
 		if i < 4 {
